@@ -129,7 +129,9 @@ CLAIMED.update({
          'lexicons, bound to that Wordnet; every navigation and relation step from an entity stays in the scope of its receiver '
          '(selection when restricted; own lexicon, its extension bases and extensions in default mode), expanded relation targets '
          'are in scope or inferred placeholders; frame: each lexicon-restricted query returns the same rows on two databases that '
-         'agree on the rows of the selected lexicons and the rows they point to. Holds for databases satisfying db_ok (unique '
+         'agree on the rows of the selected lexicons and the rows they point to — including, since the repair of F22 (found by '
+         'this check\'s seeding round and fixed), synsets(form): as a set under the same agreement, as a list when the relevant '
+         'form rows also come in the same order (with an example that the order matters). Holds for databases satisfying db_ok (unique '
          'rowids, no lexicon rowid 0, senses resolve), shown to hold on real dumps. Forms/tags/pronunciations contributed by '
          'extensions are outside the theorems: known findings F14, F3 (decided by the oracle with signatures).',
          CORE_TRUST, 'DESIGN.md section 5 C04, Appendix E'),
@@ -219,8 +221,10 @@ CLAIMED.update({
          'decided as a whole by the history oracle; for specifier lists matching several lexicons exactness is proved per '
          'lexicon. Known finding F3 (tags/pronunciations of extensions survive removal: no owner column).',
          ADD_TRUST, 'DESIGN.md section 5 C05, Appendix E'),
- 'C19': ('Coq proof over the Gallina model of wn._add._add_ili (status inventory, upsert of ILI rows) written from wn/_add.py; '
-         'tied to the code by row-for-row comparison of the tables after loading generated index files (several files, '
+ 'C19': ('Coq proof over the Gallina model of wn._ili.load (text layer: universal newlines, line-end stripping, tab '
+         'splitting; Model/IliFile.v) and wn._add._add_ili (status inventory, upsert of ILI rows) written from wn/_ili.py and '
+         'wn/_add.py; tied to the code by row-for-row comparison of the tables after loading generated index files given to the '
+         'model as raw text (several files, LF and CR LF line ends, missing final line end, definitions containing Unicode line separators, '
          'permuted orders, short rows, repeated ids, lexicons before and after); oracle on the real code',
          'Theorems (closed under the global context): loading an index touches no table but ilis and ili_statuses; a listed ILI '
          'ends with the status and definition of its last line (NULL when the field is missing), keeping rowid and metadata; '
@@ -228,7 +232,9 @@ CLAIMED.update({
          'is the identity on the database; statuses only grow by those of the file. Holds for ilis tables with distinct ids '
          '(ilis_ok, preserved by add_ili and shown on a model-built database). File recognition (is_ili, header variants) is '
          'proved with C07\'s project model. The synsets table, proposed ILIs and every content table are unchanged, and every ILI '
-         'row a synset points to keeps its rowid, id and metadata (synset_keeps_ili).',
+         'row a synset points to keeps its rowid, id and metadata (synset_keeps_ili). Text layer: rows written one per line '
+         'with tab-separated fields are read back exactly, for LF, CR LF and CR line ends, whatever other code points the '
+         'fields contain (U+2028, U+0085, form feed, ...).',
          ADD_TRUST, 'DESIGN.md section 5 C19, Appendix E'),
 })
 
